@@ -564,8 +564,9 @@ fn real_c15<T: Serialize + DeserializeOwned + PartialEq + Debug>(v: &T, sc: &Sce
         Ok(d) => d,
         Err(_) => return,
     };
-    let single: Option<(u32, bool)> = match sc.fault {
-        FaultSpec::Vis(k, e) => Some((k, e)),
+    let single: Option<Fault> = match sc.fault {
+        FaultSpec::Vis(k, exit) => Some(Fault::Vis { k, exit }),
+        FaultSpec::Seed(k, exit) => Some(Fault::Seed { k, exit }),
         _ => None,
     };
     crate::c15::enumerate_faults(&text, im.as_item(), single, sc, verbose, out, &|route, fault, keep| {
